@@ -165,10 +165,10 @@ class ControlWorld:
             if lp.vf_iteration - start > MAX_IDLE_ITERS:
                 raise Livelock("control world")
 
-    async def open(self, pool, width, handshake_clause="C16.handshake"):
+    async def open(self, pool, width, handshake_clause="C16.handshake", side="served"):
         s = Sess(self, pool, width)
         s.reader.feed_data(json.dumps({"terminal_width": width}).encode() + b"\n")
-        tok = targets.side.set("served")
+        tok = targets.side.set(side)
         try:
             hs = asyncio.ensure_future(s.session.client_handshake())
         finally:
@@ -188,7 +188,7 @@ class ControlWorld:
         exp = str(pool).encode() + b"\n"
         if b"".join(got) != exp:
             self.violate(handshake_clause, f"handshake reply {got!r}, expected {exp!r}")
-        tok = targets.side.set("served")
+        tok = targets.side.set(side)
         try:
             s.task = asyncio.ensure_future(s.session.listen())
         finally:
@@ -370,7 +370,7 @@ def gen_command(cls, rng, helps=None, only=None, avoid=()):
     opts = []
     tail = []
     help_text = (helps or {}).get(name, "")
-    for p in list(sig.parameters.values())[1:]:
+    for p in [q for q in sig.parameters.values() if q.name != "self"]:  # (a static method has no `self`)
         if p.kind == p.VAR_POSITIONAL:
             v, ts = rep_domain(p.name, rng)
             tail = (p.name, v, ts)
